@@ -30,6 +30,9 @@ import SpectraVerif.Proofs.C08DsqrQ
 import SpectraVerif.Proofs.C08DsqrMatrix
 import SpectraVerif.Proofs.C08DsqrSimF
 import SpectraVerif.Proofs.C08DsqrSimG
+import SpectraVerif.Proofs.C08Buf
+import SpectraVerif.Proofs.C08Reuse
+import SpectraVerif.Proofs.C08ReuseDs
 import Mathlib.Analysis.Real.Sqrt
 import Mathlib.LinearAlgebra.Matrix.Charpoly.Basic
 
@@ -713,6 +716,127 @@ theorem c08_dsqr_runexact_two (hmin : 0 < F.minPos) (mat : Mat K) (s t : K) (h2 
 
 end dsqr_similarity
 
+/-! ### (8) argument buffers and object reuse: the helpers' answers do not depend on what their arguments / the object held before
+
+  (a) closed facts about the footprint `Gen.QRBuf`, regenerated from the clang AST of the three classes on every run (how each
+      method ADDRESSES its matrix / vector arguments), decided by the kernel;
+  (b) for every scalar type and every `Sc` instance (so for `Float` and for exact arithmetic alike), every old object, every
+      junk value and every input: `compute()` on an object that already holds a factorization builds the object a fresh
+      `compute()` builds (UpperHessenbergQR, TridiagQR); for DoubleShiftQR, whose reflector store keeps stale columns, every
+      query answers as on a fresh object.
+  The real classes are checked bit for bit against these statements by harness/c08.cpp (destination states, views with an outer
+  stride, reuse histories incl. `hqrh|tqrh|dsqrh` correspondence requests answered by the models' `recompute`). -/
+
+section buffers
+open Gen.QRBuf C08Buf
+
+/-- `matrix_QtHQ(dest)` of every class (the only methods with an owning matrix output parameter: exactly these four) gives
+    `dest` its size and EVERY entry a value, unconditionally, before anything else is done with it: the first use of `dest` is
+    either the whole-object assignment `dest.noalias() = M` (Eigen resizes the destination) or `dest.resize(m_n, m_n)` followed
+    at once by `dest.setZero()` / a whole-object assignment — under no `if`, in no loop.  So the band writes that follow cannot
+    leave stale off-band entries, whatever size and contents the caller's matrix had. -/
+theorem c08_dest_initialised :
+    destMethods = [("UpperHessenbergQR", "matrix_QtHQ(Matrix &)"), ("TridiagQR", "matrix_QtHQ(Matrix &)"),
+                   ("TridiagQR", "matrix_QtHQ(ComplexMatrix &)"), ("DoubleShiftQR", "matrix_QtHQ(Matrix &)")] ∧
+    (∀ m ∈ destMethods, destInit (usesOf m.1 m.2) = true) := by
+  decide
+
+/-- every `apply_*` of UpperHessenbergQR (all six; TridiagQR declares none of its own: it inherits them) and
+    `DoubleShiftQR::apply_YQ` address an `Eigen::Ref` argument ONLY through accessors that take its outer stride into account
+    (`rows/cols/row/col/coeff/coeffRef/block`, or ask for the stride itself: `outerStride/innerStride`), never through `data()`; the only raw pointers taken in them are the column starts
+    `&Y.coeffRef(0, i)`, `&Y.coeffRef(0, i + 1)` of `apply_YQ` (walked inside ONE column, where the inner stride is 1);
+    `Vector&` arguments (owning, contiguous) are addressed by `[]` / `data()`.  The two private DoubleShiftQR helpers that do
+    walk `X.data()` take the stride as an explicit argument: `c08_dsqr_stride_calls`. -/
+theorem c08_apply_stride_aware :
+    (∀ u ∈ uses, u.ptype = "GenericMatrix" → isStrideHelper u = false → strideAware u.member = true) ∧
+    (∀ u ∈ uses, u.ptype = "Vector &" → u.member = "[]" ∨ u.member = "data") ∧
+    ptrAssigns.filter (fun p => p.1 == "UpperHessenbergQR" && hqrApplySigs.contains p.2.1) =
+      [("UpperHessenbergQR", "apply_YQ(GenericMatrix)", "Y_col_i", "&Y.coeffRef(0, i)"),
+       ("UpperHessenbergQR", "apply_YQ(GenericMatrix)", "Y_col_i1", "&Y.coeffRef(0, i + 1)")] ∧
+    (qrMethods.filter (fun m => m.1 == "UpperHessenbergQR" && (m.2.take 6).toString == "apply_")).map (·.2) = hqrApplySigs ∧
+    qrMethods.filter (fun m => m.1 == "TridiagQR") =
+      [("TridiagQR", "compute(ConstGenericMatrix &, const Scalar &)"), ("TridiagQR", "matrix_R()"),
+       ("TridiagQR", "matrix_QtHQ(Matrix &)"), ("TridiagQR", "matrix_QtHQ(ComplexMatrix &)")] := by
+  decide
+
+/-- the pointer-walking helpers `DoubleShiftQR::apply_PX/apply_XP(X, stride, ind)` step from column to column by `stride` only,
+    and at every call site the stride argument belongs to the matrix the block is taken from: `m_n` for blocks of the owning
+    `m_n × m_n` member `m_mat_H` (eight calls in `update_block`); for the blocks of the caller's `Y` in `apply_YQ` either
+    `Y.outerStride()` or `Y.rows()`.
+    KNOWN FINDING C08-F2: the unchanged tree passes `Y.rows()`, which is the distance between columns only for a plain matrix;
+    for a view with a larger outer stride (`B.topRows(k)`, a block of a workspace, a strided Map) `apply_YQ` computes a wrong
+    product and writes outside the view (harness: `dsqr-view-apply_YQ`).  The one-line repair `Y.outerStride()` keeps this theorem. -/
+theorem c08_dsqr_stride_calls :
+    (∀ c ∈ strideCalls, (c.2.2.2.1 = "m_mat_H" ∧ c.2.2.2.2 = "m_n") ∨
+       (c.2.1 = "apply_YQ(GenericMatrix)" ∧ c.2.2.2.1 = "Y" ∧ (c.2.2.2.2 = "Y.outerStride()" ∨ c.2.2.2.2 = "Y.rows()"))) ∧
+    ptrAssigns.filter (fun p => p.1 == "DoubleShiftQR" && (p.2.1 == "apply_PX(GenericMatrix, Index, Index)" || p.2.1 == "apply_XP(GenericMatrix, Index, Index)")) =
+      [("DoubleShiftQR", "apply_PX(GenericMatrix, Index, Index)", "xptr", "X.data()"),
+       ("DoubleShiftQR", "apply_PX(GenericMatrix, Index, Index)", "xptr", "+=stride"),
+       ("DoubleShiftQR", "apply_PX(GenericMatrix, Index, Index)", "xptr", "+=stride"),
+       ("DoubleShiftQR", "apply_XP(GenericMatrix, Index, Index)", "X0", "X.data()"),
+       ("DoubleShiftQR", "apply_XP(GenericMatrix, Index, Index)", "X1", "X0 + stride"),
+       ("DoubleShiftQR", "apply_XP(GenericMatrix, Index, Index)", "X2", "X1 + stride")] := by
+  decide
+
+/-- `compute()` of each class (re)sizes every array member it writes and assigns the whole-object members UNCONDITIONALLY (under
+    no `if`, in no loop), exactly as the models' `recompute` assume: a resize moved into an `if (size changed)` block, a dropped
+    or added (re)initialisation changes this table. -/
+theorem c08_compute_resets :
+    (∀ r ∈ computeResets, r.2.2.2.2.2.1 = "" ∧ r.2.2.2.2.2.2 = false) ∧
+    computeResets.map (fun r => (r.1, r.2.2.1, r.2.2.2.1, r.2.2.2.2.1)) =
+      [("UpperHessenbergQR", "m_mat_R", "resize", "m_n, m_n"), ("UpperHessenbergQR", "m_rot_cos", "resize", "m_n - 1"),
+       ("UpperHessenbergQR", "m_rot_sin", "resize", "m_n - 1"), ("UpperHessenbergQR", "m_mat_R", "noalias=", "mat"),
+       ("TridiagQR", "m_rot_cos", "resize", "m_n - 1"), ("TridiagQR", "m_rot_sin", "resize", "m_n - 1"),
+       ("TridiagQR", "m_T_diag", "resize", "m_n"), ("TridiagQR", "m_T_subd", "resize", "m_n - 1"),
+       ("TridiagQR", "m_T_diag", "noalias=", "mat.diagonal()"), ("TridiagQR", "m_T_subd", "noalias=", "mat.diagonal(-1)"),
+       ("TridiagQR", "m_R_diag", "resize", "m_n"), ("TridiagQR", "m_R_supd", "resize", "m_n - 1"),
+       ("TridiagQR", "m_R_supd2", "resize", "m_n - 2"), ("TridiagQR", "m_R_supd", "noalias=", "m_T_subd"),
+       ("DoubleShiftQR", "m_mat_H", "resize", "m_n, m_n"), ("DoubleShiftQR", "m_ref_u", "resize", "3, m_n"),
+       ("DoubleShiftQR", "m_ref_nr", "resize", "m_n"), ("DoubleShiftQR", "m_mat_H", "noalias=", "mat")] := by
+  decide
+
+end buffers
+
+section reuse
+variable {α : Type} [Add α] [Sub α] [Mul α] [Div α] [Neg α] [Sc α]
+
+/-- object reuse, UpperHessenbergQR: for EVERY object `old` (whatever factorization, of whatever size, it holds), every value
+    `junk` of freshly reallocated storage, every input and shift — `old.compute(mat, shift)` leaves exactly the object
+    `UpperHessenbergQR(mat, shift)` constructs: `m_mat_R` is assigned as a whole and each of the `n − 1` entries of the resized
+    `m_rot_cos` / `m_rot_sin` is overwritten.  Every query (`matrix_R`, `matrix_QtHQ`, all `apply_*`) is a function of the object,
+    hence history-independent.  Any scalar type, any `Sc` instance (`Float` included). -/
+theorem c08_hqr_recompute (old : UpperHessenbergQR α) (junk : α) (mat : Lin.Mat α) (shift : α) :
+    old.recompute junk mat shift = UpperHessenbergQR.compute mat shift :=
+  C08Reuse.hqr_recompute old junk mat shift
+
+/-- object reuse, TridiagQR (the Lanczos restart loop calls `compute` on ONE object for every shift): the same statement; of the
+    resized-only members, `m_rot_cos`, `m_rot_sin` (`n − 1` entries) and `m_R_supd2` (`n − 2` entries) are overwritten entry by
+    entry by the factorization loop, the others are assigned as a whole. -/
+theorem c08_tqr_recompute (old : TridiagQR α) (junk : α) (mat : Lin.Mat α) (shift : α) :
+    old.recompute junk mat shift = TridiagQR.compute mat shift :=
+  C08Reuse.tqr_recompute old junk mat shift
+
+/-- object reuse, DoubleShiftQR (`GenEigsBase::restart` calls `compute` on ONE object for every complex shift pair): the
+    reflector store is NOT rebuilt completely — `m_ref_u` / `m_ref_nr` survive a `resize` to the same size and a column of `m_ref_u`
+    is written only when its count is ≥ 2, so columns with `nr = 1` keep stale reflectors.  Nevertheless, for EVERY old object,
+    every junk in reallocated storage, every input (n ≥ 1) and shifts: `n`, `matrix_QtHQ`, the shifts and `m_ref_nr` are those of a
+    fresh object, the reflectors agree wherever the count is not 1 (`uLive`: the store with the dead columns cleared, what the
+    harness and the driver print, is identical), and `apply_QtY`, `apply_YQ` give the same result on every argument.
+    Any scalar type, any `Sc` instance (`Float` included). -/
+theorem c08_dsqr_recompute (old : DoubleShiftQR α) (junk : α) (junkNr : Nat) (mat : Lin.Mat α) (s t : α) (hn : 1 ≤ mat.rows) :
+    (old.recompute junk junkNr mat s t).n = (DoubleShiftQR.compute mat s t).n ∧
+    (old.recompute junk junkNr mat s t).matrix_QtHQ = (DoubleShiftQR.compute mat s t).matrix_QtHQ ∧
+    (old.recompute junk junkNr mat s t).s = (DoubleShiftQR.compute mat s t).s ∧
+    (old.recompute junk junkNr mat s t).t = (DoubleShiftQR.compute mat s t).t ∧
+    (old.recompute junk junkNr mat s t).nr = (DoubleShiftQR.compute mat s t).nr ∧
+    (old.recompute junk junkNr mat s t).uLive = (DoubleShiftQR.compute mat s t).uLive ∧
+    (∀ y, (old.recompute junk junkNr mat s t).apply_QtY y = (DoubleShiftQR.compute mat s t).apply_QtY y) ∧
+    (∀ Y, (old.recompute junk junkNr mat s t).apply_YQ Y = (DoubleShiftQR.compute mat s t).apply_YQ Y) := by
+  obtain ⟨h1, _, h3, h4, h5, _, h7, h8, h9⟩ := C08ReuseDs.dsqr_recompute old junk junkNr mat s t hn
+  exact ⟨h1, h7, h3, h4, h5, C08ReuseDs.dsqr_recompute_uLive old junk junkNr mat s t hn, h8, h9⟩
+
+end reuse
+
 /-! ### hypotheses are satisfiable -/
 
 /-- the upper Hessenberg hypothesis of `c08_dsqr_first_col` holds e.g. for the identity -/
@@ -750,6 +874,8 @@ example : ((3 : ℚ) / 5) * (3 / 5) + (4 / 5) * (4 / 5) = 1 := by norm_num
     (there the identities are false exactly: the code treats the argument as zero without zeroing it; defect `O(m_near_0)`), and
     the first-column statement for 2x2 / 1x1 first blocks in instantiated form (local statement: `C08DsqrMatrix.first_col_parallel2`).
   * The clause fails near the underflow threshold for DoubleShiftQR: known finding C08-F1 above.
+  * Views: the Lean models have no notion of an outer stride; that the real `apply_*` treat a strided view like an owning matrix
+    is established structurally (`c08_apply_stride_aware`, `c08_dsqr_stride_calls`) and by the harness's view cases.
 -/
 
 end C08
